@@ -513,13 +513,32 @@ def shiftLine (l : Line) (k : Int) : Line :=
   | .num n => .num (n + k)
   | .unknown => .unknown
 
-/-- line printed for a construct with docutils' line structure of the text handed to it: the cleaned
-docstring with the extra boundaries blanked (epytext splits on `'\n'` only) -/
+/-- lone carriage returns of a line of the cleaned text: `'\r'` not followed by the `'\n'` that ends the
+line.  `str.splitlines()` breaks there too, and ce72216's substitution does not cover `'\r'`
+(`'\v'` and `'\f'` are turned into blanks by docutils itself before it splits). -/
+def loneCRs (l : List Char) : Nat :=
+  (l.filter (· = '\r')).length - (if l.getLast? = some '\r' then 1 else 0)
+
+def loneCRsIn (lines : List (List Char)) (i : Nat) : Nat := ((lines.take i).map loneCRs).sum
+
+/-- every character at which `str.splitlines()` breaks and Python does not (napoleon splits the
+google / numpy docstring with it, unfiltered) -/
+def isSplitlinesBreak (c : Char) : Bool := isExtraBreak c || c.toNat == 0x0B || c.toNat == 0x0C
+
+def allBreaksIn (lines : List (List Char)) (i : Nat) : Nat :=
+  ((lines.take i).map fun l => (l.filter isSplitlinesBreak).length + loneCRs l).sum
+
+/-- lines docutils / napoleon count in addition to the `'\n'` lines before cleaned line `i` -/
+def lineShift (fmt : Fmt) (doc : List Char) (i : Nat) : Nat :=
+  match fmt with
+  | .epytext => 0                                      -- `text.split('\n')`
+  | .rst => extraBreaksIn ((cleandocLines doc).map blankExtraBreaks) i + loneCRsIn (cleandocLines doc) i
+  | _ => allBreaksIn (cleandocLines doc) i             -- napoleon: `docstring.splitlines()`
+
+/-- line printed for a construct with the line structure of the parser that reads the text -/
 def reportedLineS (fmt : Fmt) (strLineno : Nat) (doc : List Char) (linenumber : Int) (isModule : Bool)
     (c : Construct) : Line :=
-  shiftLine (reportedLine fmt strLineno doc linenumber isModule c)
-    (if fmt = .epytext then 0
-     else (extraBreaksIn ((cleandocLines doc).map blankExtraBreaks) (c.raw - dropped doc) : Nat))
+  shiftLine (reportedLine fmt strLineno doc linenumber isModule c) (lineShift fmt doc (c.raw - dropped doc) : Nat)
 
 /-- before ce72216 docutils saw the characters themselves -/
 def reportedLineSOld (fmt : Fmt) (strLineno : Nat) (doc : List Char) (linenumber : Int) (isModule : Bool)
